@@ -60,9 +60,9 @@ def main(argv=None):
     have_driver = ck.driver()
 
     quick = ck.tier == "quick"
-    histories = [h for h in gen.corpus() if quick is False or h[0].split("-")[0] in
-                 ("age", "trickle", "idle", "ticking", "eager", "threshold", "bucket", "reads", "rejected")]
-    n_random = 60 if quick else 3000
+    # quick: the count-only grid of insert_many sizes is left to C06
+    histories = [h for h in gen.corpus() if not quick or not h[0].startswith("insert_many-")]
+    n_random = 60 if quick else 2000
     for i in range(n_random):
         profile = ["trickle", "mixed", "trickle", "burst"][i % 4]
         histories.append((f"random-{profile}-{i}", ck.rng.random() > 0.05, gen.random_history(ck.rng, profile)))
